@@ -110,14 +110,14 @@ def realise_plan(plan, files_by_url):
     return out
 
 
-def pool_listing(root: Path):
+def pool_listing(root: Path, skip_dists=True):
     """relative path -> (size, int mtime) of the regular files of one repository's mirror directory that are
-    not below a dists* directory"""
+    not below a dists* directory (skip_dists=False: of all its regular files)"""
     out = {}
     if not root.is_dir():
         return out
     for dp, dns, fns in os.walk(root):
-        if dp == str(root):
+        if dp == str(root) and skip_dists:
             dns[:] = [d for d in dns if not d.startswith("dists")]
         for n in fns:
             f = os.path.join(dp, n)
@@ -155,7 +155,7 @@ def c_resp_of(resp):
     return "{| pre_retries := 0; rbody := %s |}" % body
 
 
-POOL_HEADER = "From AM.Model Require Import Base Download Stage Converge."
+POOL_HEADER = "From AM.Model Require Import Base Download Stage Pipeline Converge."
 POOL_DEFS = """
 Definition same_sizes (t : lfs) (want : list (string * N)) : bool :=
   Nat.eqb (List.length t) (List.length want) &&
@@ -173,6 +173,66 @@ Definition m_pool (c : list dfile * upstream * lfs * list (string * N) * option 
 Definition eq_pool (a b : bool * bool * bool) : bool :=
   match a, b with (x1, y1, z1), (x2, y2, z2) => Bool.eqb x1 x2 && Bool.eqb y1 y2 && Bool.eqb z1 z2 end.
 """
+
+
+META_DEFS = """
+Definition entry_ok (fs : lfs) (e : string * option (N * Z)) : bool :=
+  match lookup fs (fst e), snd e with
+  | None, None => true
+  | Some i, Some (n, z) => N.eqb (fsize i) n && match fmt i with Date d => Z.eqb d z | Local => true end
+  | _, _ => false
+  end.
+(* (has_errors, has_missing, every path of every queued file as on disk after the stage) *)
+Definition m_meta (c : list dfile * upstream * lfs * list (string * option (N * Z))) : bool * bool * bool :=
+  match c with (files, u, fs, after) =>
+    let '(rs, fs') := run_stage false files u fs in
+    (has_errors rs, has_missing rs, forallb (entry_ok fs') after)
+  end.
+"""
+
+
+def c_queue(q):
+    from .common import cN, cstr
+    f_terms, paths = [], []
+    for f in q:
+        vs = clist("{| vpaths := %s; vsource := %s; vsize := %s |}" % (
+            clist(cstr(p) for p in v["paths"]), cstr(v["source"]), cN(v["size"])) for v in f["variants"])
+        f_terms.append("{| dname := %s; variants := %s; check_size := %s; ignore_errors := %s; ignore_missing := %s |}" % (
+            cstr(f["name"]), vs, cbool(f["check_size"]), cbool(f["ignore_errors"]), cbool(f["ignore_missing"])))
+        for v in f["variants"]:
+            paths += v["paths"]
+    return clist(f_terms), list(dict.fromkeys(paths))
+
+
+def c_upstream(paths, files, faults):
+    from .common import cstr
+    from . import sim
+    u_terms = []
+    for p in paths:
+        good = None
+        if p in files:
+            data, mtime = files[p]
+            good = sim.Resp("ok", announced=len(data), date=mtime, body=data)
+        sc = (faults or {}).get(p)
+        if sc is None:
+            first, rest = [], good
+        else:
+            first = [good if x == "good" else x for x in sc.get("first", [])]
+            rest = good if sc.get("rest", "good") == "good" else sc["rest"]
+        u_terms.append("(%s, {| first := %s; rest := %s |})" % (cstr(p), clist(c_resp_of(r) for r in first), c_resp_of(rest)))
+    return clist(u_terms)
+
+
+def meta_tie_row(o, files, faults):
+    """the metadata stage of one repository of one real run as a Stage.run_stage case: real queue (by-hash
+    aliases, compression variants), real previous skel tree, scripted answers; expected: the two counters and
+    (size, mtime) of every path of every queued file after the stage"""
+    from .common import cN, cZ, cstr, copt
+    fq, paths = c_queue(o["meta_queue"])
+    fs = clist("(%s, {| fsize := %s; fmt := Date %s |})" % (cstr(p), cN(sz), cZ(mt)) for p, (sz, mt) in sorted(o["meta_pre"].items()))
+    after = clist(ctuple(cstr(p), copt(o["meta_post"].get(p), lambda t: ctuple(cN(t[0]), cZ(t[1])))) for p in paths)
+    term = ctuple(fq, c_upstream(paths, files, faults), fs, after)
+    return term, ctuple(cbool(bool(o.get("meta_err"))), cbool(bool(o.get("meta_miss"))), "true")
 
 
 def pool_tie_row(o, files, faults, final_listing):
@@ -239,8 +299,15 @@ class Instrument:
             return r
 
         async def meta(m):
-            r = await inst.orig["download_metadata_files"](m)
             o = inst.obs.setdefault(key(m), {})
+            root = m._config.skel_path / m._repository.get_mirror_path(m._config.encode_tilde)
+            o["meta_pre"] = pool_listing(root, skip_dists=False)
+            r = await inst.orig["download_metadata_files"](m)
+            try:
+                o["meta_queue"] = [queue_entry(f) for f in (r or [])]
+            except Exception as e:
+                o["meta_queue_error"] = repr(e)
+            o["meta_post"] = pool_listing(root, skip_dists=False)
             o["selected"] = bool(r)
             o["meta_err"] = m._downloader.has_errors() if r else False
             o["meta_miss"] = m._downloader.has_missing() if r else False
